@@ -25,7 +25,7 @@ Theorem scheduled_pulse_durations v ops c sl p :
 Proof.
   intros Hv Hc Hs Hk.
   pose proof (run_ok v ops Hv) as Hok. unfold seq_ok in Hok.
-  rewrite Forall_forall in Hok. destruct (Hok c Hc) as (Hg & Ht & Hb).
+  rewrite Forall_forall in Hok. destruct (Hok c Hc) as (Hg & Ht & Hb & _).
   rewrite Forall_forall in Hb. specialize (Hb sl Hs).
   destruct (tiled_in _ _ _ Ht Hs) as [[Hk' _]|(H0 & H1 & H2 & H3)]; [congruence|].
   unfold len_ok in H3. rewrite Hk in H3. destruct H3 as [H3 H4].
@@ -39,8 +39,21 @@ Theorem sequence_within_device_max v ops c sl :
 Proof.
   intros Hv Hc Hs.
   pose proof (run_ok v ops Hv) as Hok. unfold seq_ok in Hok.
-  rewrite Forall_forall in Hok. destruct (Hok c Hc) as (_ & _ & Hb).
+  rewrite Forall_forall in Hok. destruct (Hok c Hc) as (_ & _ & Hb & _).
   rewrite Forall_forall in Hb. exact (Hb sl Hs).
+Qed.
+
+(** ... and its amplitude (maximum over its samples) is not above the
+    channel's maximum amplitude, whenever that maximum is defined *)
+Theorem scheduled_amplitude_within_max v ops c sl p m :
+  senv_ok v -> In c (q_sched (run v ops)) -> In sl (ch_slots c) -> s_kind sl = KPulse p ->
+  c_maxamp (ch_cfg c) = Some m -> f_gt (p_amax p) m = false.
+Proof.
+  intros Hv Hc Hs Hk Hm.
+  pose proof (run_ok v ops Hv) as Hok. unfold seq_ok in Hok.
+  rewrite Forall_forall in Hok. destruct (Hok c Hc) as (_ & _ & _ & _ & Ha).
+  rewrite Forall_forall in Ha. specialize (Ha sl Hs).
+  unfold amp_ok in Ha. rewrite Hk in Ha. unfold pamp_ok in Ha. rewrite Hm in Ha. exact Ha.
 Qed.
 
 (** accept / reject characterisation of Channel.validate_pulse on the sample
